@@ -12,6 +12,11 @@ import (
 	"strings"
 	"sync"
 	"sync/atomic"
+	"time"
+
+	abci "github.com/tendermint/tendermint/abci/types"
+
+	"verif/internal/chain"
 
 	"verif/internal/crashdb"
 	"verif/internal/ev"
@@ -244,6 +249,147 @@ func classifyCrash(cs crashState, log []crashdb.Unit) string {
 	return "substores-saved-before-commit-info"
 }
 
+// ---------------------------------------------------------------------------------------------
+// the same enumeration through BaseApp: a chain history is run on the write-logging database; for
+// every commit every crash state is materialised, the application reopened (Info tells which block
+// to replay, as Tendermint's handshake would), the interrupted block re-executed and one more block run.
+
+func c13appHistories() [][]chain.Block {
+	stake := chain.Block{Events: []chain.Event{{Kind: "tx", Tx: &chain.TxSpec{Msg: "stake", From: 2, Amount: min}}}}
+	send := chain.Block{Events: []chain.Event{{Kind: "tx", Tx: &chain.TxSpec{Msg: "send", From: 3, To: 2, Amount: 5}}}}
+	unst := chain.Block{Events: []chain.Event{{Kind: "tx", Tx: &chain.TxSpec{Msg: "unstake", From: 0}}}}
+	miss := chain.Block{Missed: []int{0}}
+	gov := chain.Block{Events: []chain.Event{{Kind: "tx", Tx: &chain.TxSpec{Msg: "change_param", From: 4, Key: "pos/MaxValidators", Val: `"1"`}}}}
+	award := chain.Block{Events: []chain.Event{{Kind: "award", Who: 3, Amount: 9}}}
+	mature := chain.Block{DT: 3 * time.Second}
+	return [][]chain.Block{
+		{{}, {}, {}},
+		{send, stake, {}},
+		{stake, unst, mature},
+		{miss, miss, send},
+		{gov, unst, award},
+		{award, send, stake, unst},
+	}
+}
+
+func runC13app(hist []chain.Block, pruning [2]int64, st *c13stats) (out []*c12result) {
+	name := fmt.Sprintf("app history %v pruning=(%d,%d)", blockLabels(hist), pruning[0], pruning[1])
+	defer func() {
+		if r := recover(); r != nil {
+			out = append(out, &c12result{"C13|app|panic", name + ": " + fmt.Sprintf("panic: %.300v", r)})
+		}
+	}()
+	seen := map[string]bool{}
+	fail := func(sig, f string, a ...interface{}) {
+		if !seen[sig] {
+			seen[sig] = true
+			out = append(out, &c12result{"C13|app|" + sig, name + ": " + fmt.Sprintf(f, a...)})
+		}
+	}
+	pr := "keepRecent>0"
+	if pruning[0] == 0 {
+		pr = "keepRecent=0"
+		if pruning[1] == 1 {
+			pr = "prune-nothing"
+		}
+	}
+	cfg := baseCfg()
+	cfg.Pruning = pruning
+	db := crashdb.New()
+	d := chain.NewDriverOnDB(cfg, db)
+	defer d.Close()
+	type rec struct {
+		pre  map[string][]byte
+		log  []crashdb.Unit
+		hash []byte
+		tm   chain.TMState
+	}
+	var recs []rec
+	ext := append(append([]chain.Block{}, hist...), chain.Block{Events: []chain.Event{{Kind: "tx", Tx: &chain.TxSpec{Msg: "send", From: 4, To: 3, Amount: 1}}}})
+	for _, b := range ext {
+		tm := d.TMState()
+		pre := db.Snapshot()
+		// the log must cover only the Commit: block execution writes nothing durable, which is checked too
+		db.StartLog()
+		r := d.RunBlock(b, &chain.Hooks{AfterEnd: func(dd *chain.Driver, _ []abci.ValidatorUpdate) {
+			if l := db.StopLog(); len(l) > 0 {
+				fail("durable-write-before-commit|"+pr, "block %d wrote %d durable units before Commit", dd.Height+1, len(l))
+			}
+			db.StartLog()
+		}})
+		log := db.StopLog()
+		if r.Panic != "" {
+			fail("uninterrupted-run-panics|"+pr, "block %d: %s", r.Height, r.Panic)
+			return
+		}
+		recs = append(recs, rec{pre, log, r.AppHash, tm})
+	}
+	for bi := 0; bi < len(hist); bi++ {
+		rc := recs[bi]
+		h := int64(bi + 1)
+		atomic.AddInt64(&st.commits, 1)
+		states, bad := crashStates(rc.log)
+		if bad != "" {
+			fail("write-log-shape|"+pr, "commit %d: %s", h, bad)
+			continue
+		}
+		for _, cs := range states {
+			atomic.AddInt64(&st.crashStates, 1)
+			where := classifyCrash(cs, rc.log)
+			if h == 1 {
+				where += "|first-commit"
+			}
+			cdb := crashdb.FromSnapshot(rc.pre, cs.units)
+			d2, err := chain.ResumeDriver(cfg, cdb, rc.tm)
+			if err != nil {
+				fail("reopen-fails|"+where+"|"+pr, "crash during commit %d at [%s]: the application does not reopen: %.200v", h, cs.name, err)
+				continue
+			}
+			func() {
+				defer d2.Close()
+				lv := d2.App.LastBlockHeight()
+				if lv != h-1 && lv != h {
+					fail("reopen-version|"+where+"|"+pr, "crash during commit %d at [%s]: Info reports height %d", h, cs.name, lv)
+					return
+				}
+				next := bi
+				if lv == h {
+					// the commit is complete: Tendermint moves on
+					d2.Height, d2.Time = h, recs[bi+1].tm.Time
+					d2.PrevSet, d2.CurSet, d2.NextSet = recs[bi+1].tm.PrevSet, recs[bi+1].tm.CurSet, recs[bi+1].tm.NextSet
+					for k, v := range recs[bi+1].tm.Indexed {
+						d2.Index.Add([]byte(k), v)
+					}
+					next = bi + 1
+				}
+				for j := next; j <= bi+1 && j < len(ext); j++ {
+					r := d2.RunBlock(ext[j], nil)
+					if r.Panic != "" {
+						fail("replay-panics|"+where+"|"+pr, "crash during commit %d at [%s]: re-executing block %d panics: %.200s", h, cs.name, j+1, r.Panic)
+						return
+					}
+					if !bytes.Equal(r.AppHash, recs[j].hash) {
+						fail("replay-hash|"+where+"|"+pr, "crash during commit %d at [%s]: block %d yields app hash %X, uninterrupted run %X", h, cs.name, j+1, r.AppHash, recs[j].hash)
+						return
+					}
+				}
+			}()
+		}
+	}
+	if len(out) == 0 {
+		atomic.AddInt64(&st.histories, 1)
+	}
+	return out
+}
+
+func blockLabels(bs []chain.Block) []string {
+	var out []string
+	for _, b := range bs {
+		out = append(out, b.String())
+	}
+	return out
+}
+
 // C13 entry point.
 func C13(tier string) int {
 	run := ev.NewRun("C13", tier, "fault_enumeration")
@@ -294,7 +440,31 @@ func C13(tier string) int {
 		total += cnt
 		desc = append(desc, fmt.Sprintf("N=%d V=%d choices=%d: %d histories x %d pruning options", j.n, j.v, j.choices, cnt/int64(len(rmPrunings)), len(rmPrunings)))
 	}
+	// application-level crash enumeration
+	appPrunings := [][2]int64{{0, 1}, {0, 0}, {1, 2}}
+	if tier == "thorough" {
+		appPrunings = rmPrunings
+	}
+	appRuns := int64(0)
+	for _, hst := range c13appHistories() {
+		for _, pr := range appPrunings {
+			hst, pr := hst, pr
+			appRuns++
+			wg.Add(1)
+			sem <- struct{}{}
+			go func() {
+				defer wg.Done()
+				defer func() { <-sem }()
+				for _, r := range runC13app(hst, pr, st) {
+					mu.Lock()
+					run.Report(r.sig, r.what, map[string]interface{}{"history": blockLabels(hst), "pruning": pr})
+					mu.Unlock()
+				}
+			}()
+		}
+	}
 	wg.Wait()
+	run.Set("app_level_histories_x_prunings", appRuns)
 	run.Set("evaluations", st.crashStates)
 	run.Set("distinct_nontrivial", st.crashStates)
 	run.Set("histories", total)
